@@ -14,6 +14,7 @@
 #include <sys/stat.h>
 #include <sys/wait.h>
 #include <unistd.h>
+#include <atomic>
 
 #include <algorithm>
 #include <fstream>
@@ -25,6 +26,54 @@
 namespace cs {
 
 struct EnumSkip {};
+
+// Runaway guard: a library operation that keeps allocating (on the default allocator, which no
+// ledger sees) must end as a recorded crash of the case, not exhaust the machine. ASan's
+// hard_rss_limit_mb needs a background thread, which forked shrink children do not have.
+#if defined(__has_feature)
+#if __has_feature(address_sanitizer)
+#define CS_HAVE_ASAN_HOOKS 1
+#endif
+#endif
+#ifdef CS_HAVE_ASAN_HOOKS
+extern "C" int __sanitizer_install_malloc_and_free_hooks(void (*)(const volatile void*, size_t), void (*)(const volatile void*));
+extern "C" size_t __sanitizer_get_allocated_size(const volatile void*);
+// live bytes in blocks below 1 MiB: one huge block (a declared length the library tries to honour)
+// is legitimate, gigabytes of small blocks are not produced by any generator
+inline std::atomic<size_t>& small_live_bytes() {
+  static std::atomic<size_t> v{0};
+  return v;
+}
+inline std::atomic<size_t>& runaway_baseline() {
+  static std::atomic<size_t> v{0};
+  return v;
+}
+inline void runaway_malloc_hook(const volatile void*, size_t size) {
+  if (size >= (1u << 20)) return;
+  size_t now = small_live_bytes().fetch_add(size, std::memory_order_relaxed) + size;
+  size_t base = runaway_baseline().load(std::memory_order_relaxed);
+  if (now > base && now - base > ((size_t)384 << 20)) {
+    static const char msg[] = "\nRUNAWAY-ALLOCATION: one case holds more than 384 MiB in small heap blocks; aborting the case\n";
+    if (write(2, msg, sizeof msg - 1)) {}
+    abort();
+  }
+}
+inline void runaway_free_hook(const volatile void* p) {
+  size_t size = __sanitizer_get_allocated_size(p);
+  if (size < (1u << 20)) small_live_bytes().fetch_sub(size, std::memory_order_relaxed);
+}
+inline void install_runaway_guard() { __sanitizer_install_malloc_and_free_hooks(runaway_malloc_hook, runaway_free_hook); }
+inline void runaway_case_begin() { runaway_baseline().store(small_live_bytes().load(std::memory_order_relaxed), std::memory_order_relaxed); }
+#else
+inline void install_runaway_guard() {}
+inline void runaway_case_begin() {}
+#endif
+inline void runaway_guard_off() {
+#ifdef CS_HAVE_ASAN_HOOKS
+  runaway_baseline().store((size_t)-1 >> 1, std::memory_order_relaxed);
+#endif
+}
+
 
 struct PropDef {
   const char* id;
@@ -197,6 +246,7 @@ inline Outcome run_isolated(const PropDef& prop, Ctx& base, const std::vector<Dr
     int code = 0;
     std::string out;
     try {
+      runaway_case_begin();
       prop.run_case(src, ctx);
     } catch (Failure& f) {
       code = 42;
@@ -354,6 +404,7 @@ inline std::vector<std::string> split(const std::string& s, char sep) {
 }
 
 inline int runner_main(const PropDef& prop, int argc, char** argv) {
+  install_runaway_guard();
   if (argc < 2) {
     fprintf(stderr, "usage: %s run|replay|shrink|cur2cs|witness|bytes ...\n", argv[0]);
     return 2;
@@ -413,6 +464,7 @@ inline int runner_main(const PropDef& prop, int argc, char** argv) {
     src.attach(rec, RECORD_CAP);
     src.init_replay(draws);
     try {
+      runaway_case_begin();
       prop.run_case(src, ctx);
     } catch (Failure& f) {
       printf("REPLAY %s: FAIL kind=%s\n%s\n--- case ---\n%s\n", prop.id, f.kind.c_str(),
@@ -462,7 +514,8 @@ inline int runner_main(const PropDef& prop, int argc, char** argv) {
       src.attach(rec, RECORD_CAP);
       src.init_bytes(reinterpret_cast<const uint8_t*>(data.data()), data.size());
       try {
-        prop.run_case(src, ctx);
+        runaway_case_begin();
+      prop.run_case(src, ctx);
       } catch (...) {
       }
       _exit(0);
@@ -520,7 +573,8 @@ inline int runner_main(const PropDef& prop, int argc, char** argv) {
       (void)gate;
       try {
         ctx.current_rendering.clear();
-        prop.run_case(src, ctx);
+        runaway_case_begin();
+      prop.run_case(src, ctx);
       } catch (Failure& f) {
         on_failure(f);
       } catch (EnumSkip&) {
@@ -539,7 +593,8 @@ inline int runner_main(const PropDef& prop, int argc, char** argv) {
       src.set_case(idx, s);
       try {
         ctx.current_rendering.clear();
-        prop.run_case(src, ctx);
+        runaway_case_begin();
+      prop.run_case(src, ctx);
       } catch (Failure& f) {
         on_failure(f);
       } catch (EnumSkip&) {
@@ -550,6 +605,7 @@ inline int runner_main(const PropDef& prop, int argc, char** argv) {
   if (sweep && prop.sweep && !failures) {
     src.init_random(mix(seed, 777));  // sweeps may still draw (recorded) choices
     try {
+      runaway_guard_off();
       prop.sweep(ctx, shard, nshards);
     } catch (Failure& f) {
       failures++;
@@ -581,6 +637,7 @@ inline bool enum_owner(const Ctx& ctx, uint64_t key) {
     static bool init = false;                                                           \
     if (!init) {                                                                        \
       init = true;                                                                      \
+      cs::install_runaway_guard();                                                      \
       const char* k = getenv("VERIF_KNOWN");                                            \
       if (k) ctx.active_known = cs::split(k, ',');                                      \
       ctx.tier = "thorough";                                                            \
@@ -592,6 +649,7 @@ inline bool enum_owner(const Ctx& ctx, uint64_t key) {
     try {                                                                               \
       ctx.current_rendering.clear();                                                    \
       ctx.nontrivial_hashes.clear();                                                    \
+      cs::runaway_case_begin();                                                         \
       PROP.run_case(src, ctx);                                                          \
     } catch (cs::Failure & f) {                                                         \
       fprintf(stderr, "ORACLE-FAIL %s [%s] %s\n", PROP.id, f.kind.c_str(),              \
